@@ -92,17 +92,23 @@ class Module:
             if isinstance(node, ast.Global):
                 for n in node.names:
                     bound[n] = bound.get(n, 0) + 2
-        for node in self._toplevel(self.tree.body):
-            for sub in ast.walk(node) if not isinstance(node, (ast.FunctionDef, ast.AsyncFunctionDef, ast.ClassDef)) else [node]:
-                names = []
-                if isinstance(sub, (ast.FunctionDef, ast.AsyncFunctionDef, ast.ClassDef)):
-                    names = [sub.name]
-                elif isinstance(sub, ast.Name) and isinstance(sub.ctx, (ast.Store, ast.Del)):
-                    names = [sub.id]
-                elif isinstance(sub, ast.alias):
-                    names = [(sub.asname or sub.name).split(".")[0]]
-                for n in names:
-                    bound[n] = bound.get(n, 0) + 1
+        def module_level(nodes):
+            """Every node executed at import time: the whole module except the bodies of functions, classes and lambdas."""
+            for n in nodes:
+                yield n
+                if isinstance(n, (ast.FunctionDef, ast.AsyncFunctionDef, ast.ClassDef, ast.Lambda)):
+                    continue
+                yield from module_level(ast.iter_child_nodes(n))
+        for sub in module_level(self.tree.body):
+            names = []
+            if isinstance(sub, (ast.FunctionDef, ast.AsyncFunctionDef, ast.ClassDef)):
+                names = [sub.name]
+            elif isinstance(sub, ast.Name) and isinstance(sub.ctx, (ast.Store, ast.Del)):
+                names = [sub.id]
+            elif isinstance(sub, ast.alias):
+                names = [(sub.asname or sub.name).split(".")[0]]
+            for n in names:
+                bound[n] = bound.get(n, 0) + 1
         out: dict[str, object] = {}
         for name, v in self.assigns.items():
             if bound.get(name) != 1:
@@ -112,7 +118,16 @@ class Module:
             elif isinstance(v, ast.UnaryOp) and isinstance(v.op, ast.USub) and isinstance(v.operand, ast.Constant) \
                     and isinstance(v.operand.value, (int, float)) and not isinstance(v.operand.value, bool):
                 out[name] = -v.operand.value
+            elif isinstance(v, ast.Call) and not v.keywords and len(v.args) == 1 and isinstance(v.args[0], ast.Constant) and dotted(v.func) \
+                    and self._imported_qual(dotted(v.func)) in ("operator.attrgetter", "operator.itemgetter"):
+                out[name] = (self, v)           # a closed constructor of a pure accessor: _coalition_id = attrgetter("id")
         return out
+
+    def _imported_qual(self, d: str) -> str:
+        """`attrgetter` / `operator.attrgetter` / `op.attrgetter` -> the imported qualified name."""
+        head, _, rest = d.partition(".")
+        base = self.imports.get(head, head)
+        return base + ("." + rest if rest else "")
 
     def _toplevel(self, body: list[ast.stmt]) -> Iterator[ast.stmt]:
         """Top-level statements, looking through ``if``/``try`` used for version switches."""
